@@ -245,6 +245,8 @@ def _shards(tier):
         for via in vias:
             for first in (("start", 0), ("start", 1)):
                 out.append({"n": 2, "via": via, "sched": [list(first)]})
+        for b in (("start", 1), ("start", 2), ("reply", 0)):
+            out.append({"n": 3, "via": "direct", "sched": [["start", 0], list(b)]})
         return out
     for via in vias:
         out.append({"n": 2, "via": via, "sched": []})
@@ -262,7 +264,7 @@ OBLIGATIONS = [Obligation(
              "openpectus.aggregator.routers.process_unit:get_registered_engine_data_or_fail"],
     symbolic="stored version and the base version of every request (ints 0..10^6, only compared/incremented), schedule selector per step "
              "(start request i / deliver engine reply i), engine reply kind per request",
-    bounds={"quick": "2 concurrent save requests on one engine, every interleaving of request start and engine reply",
+    bounds={"quick": "2 concurrent save requests on one engine, every interleaving of request start and engine reply; 3 concurrent requests (direct calls) on the schedules that begin with request 0",
             "thorough": "3 concurrent save requests (and 2), every interleaving"},
     assumptions=["dispatcher = fake whose rpc_call records the message, suspends once (the engine round-trip) and answers as the solver chooses",
                  "coroutines advanced by hand; asyncio.create_task (publish_method_changed) is a no-op; a minimal loop object stands in for the running loop",
